@@ -77,16 +77,19 @@ def _seed_expr_ok(fn, loop_node):
     out = []
     if not isinstance(loop_node, ast.For):
         return out
-    idx = None
-    if isinstance(loop_node.target, ast.Tuple) and isinstance(loop_node.iter, ast.Call) and \
-            ast.unparse(loop_node.iter.func) == "enumerate":
-        idx = ast.unparse(loop_node.target.elts[0])
+    from .common import row_loop_info
+    from .c15 import _inline
+    info = row_loop_info(fn)
+    idx = info.idx if info is not None and info.loop is loop_node else None
+    seed = info.seed if info is not None and info.loop is loop_node else None
     params = fn.params
     for n in ast.walk(loop_node):
         if isinstance(n, ast.Call) and ast.unparse(n.func) == "create_rng":
             arg = n.args[0] if n.args else (n.keywords[0].value if n.keywords else None)
+            arg = _inline(loop_node, arg) if arg is not None else None
             ok = (arg is not None and isinstance(arg, ast.Subscript) and ast.unparse(arg.value) == "seeds"
-                  and "seeds" in params and idx is not None and ast.unparse(arg.slice) == idx)
+                  and "seeds" in params and idx is not None and ast.unparse(arg.slice) == idx) or \
+                 (arg is not None and isinstance(arg, ast.Name) and seed is not None and arg.id == seed)
             out.append((n, ok))
     return out
 
@@ -141,7 +144,8 @@ def check_row_locality(ctx, F, c, root, sim, seen_impls):
                     site = ev.stack[-1][1] if ev.stack else ev.node
                     ctx.violate("R5.1", "%s draws from %s, which is not the row generator, in the per-row loop of "
                                 "%s" % (user.qualname, held_by, fn.qualname),
-                                site, site_fn, "%s; path %s [%s%s]" % (why, chain, "sim:" if sim else "", c.name))
+                                site, site_fn, "%s; path %s [%s%s]" % (why, chain, "sim:" if sim else "", c.name),
+                                construct=_draw_construct(site))
         # (f) nothing is computed from the whole chunk of rows outside the per-row loop, except trusted row-wise maps
         for ev, a2 in walk(pc):
             if ev.kind != "ext" or id(ev) in in_loop or ev.fn is not fn:
@@ -173,6 +177,14 @@ def check_row_locality(ctx, F, c, root, sim, seen_impls):
                 ok = isinstance(p, ast.BinOp) and isinstance(p.op, ast.Add)
                 ctx.check(ok, "R5.1", "start_index is only added to the row index", p if p is not None else n, fn,
                           "start_index used other than as global row identity")
+
+
+def _draw_construct(site):
+    """`<receiver>.<method>(...)` of the drawing call: the identity of a draw site does not include its arguments"""
+    for n in ast.walk(site) if site is not None else ():
+        if isinstance(n, ast.Call) and isinstance(n.func, ast.Attribute) and "rng" in ast.unparse(n.func.value):
+            return "%s(...)" % ast.unparse(n.func)
+    return norm_stmt(site) if site is not None else ""
 
 
 def _loops_of_body(loop):
@@ -217,6 +229,15 @@ def _check_carried(ctx, F, w, c, pc, loop, fn, sim):
                     "loopvar:%d" % lid in key.tags:
                 ctx.ok("R5.1", "output slot written at [index]", ev.node, ev.fn)
                 continue
+            if ev.fn is fn and ev.a["skind"] == "mutcall:append":
+                from .common import row_loop_info
+                info = row_loop_info(fn)
+                call = ev.node.value if isinstance(ev.node, ast.Expr) else ev.node
+                if info is not None and info.mode == "append" and info.once and isinstance(call, ast.Call) and \
+                        isinstance(call.func, ast.Attribute) and ast.unparse(call.func.value) == info.out:
+                    ctx.ok("R5.1", "the row's result is appended to the result list exactly once per row", ev.node,
+                           ev.fn)
+                    continue
             if t.field == "rng" and not t.sub:
                 ctx.ok("R5.1", "generator of a worker-local object is rebound per row", ev.node, ev.fn)
                 continue
@@ -436,22 +457,71 @@ def check_partition_sites(ctx, rule="R5.2", only=None):
         if not okp:
             continue
         NJ, ST = pb["_NJ_"], pb["_ST_"]
-        ctx.check(ast.unparse(g.iter) == "range(%s)" % NJ, rule, "%s: tasks range over range(n_jobs)" % qual, par,
-                  fn, "iterable is %s" % ast.unparse(g.iter), construct="task iterable of " + qual)
+        # How does one task see its chunk? LO / HI are the chunk's bounds in terms of the task's iteration variable.
+        #   range form      for i in range(n_jobs):                       LO = starts[i],  HI = starts[i + 1]
+        #   pair form       for lo, hi in zip(starts[:-1], starts[1:]):   LO = lo,         HI = hi
+        #   slice objects   for s in [slice(starts[i], starts[i + 1]) for i in range(n_jobs)]:   x[s] == x[LO:HI]
+        #   chunk list      for c in [rows[starts[i]:starts[i + 1]] for i in range(n_jobs)]:     c == rows[LO:HI]
+        it = g.iter
+        it_def = None
+        if isinstance(it, ast.Name):
+            dd = [x.value for x in ast.walk(fn.node) if isinstance(x, ast.Assign) and len(x.targets) == 1 and
+                  isinstance(x.targets[0], ast.Name) and x.targets[0].id == it.id]
+            it_def = dd[0] if len(dd) == 1 else None
+        its = " ".join(ast.unparse(it).split())
+        form = None
+        subst = {}
+        if its == "range(%s)" % NJ and isinstance(g.target, ast.Name):
+            form = "range"
+            lo_t, hi_t = "%s[%s]" % (ST, ivar), "%s[%s + 1]" % (ST, ivar)
+        elif its == "zip(%s[:-1], %s[1:])" % (ST, ST) and isinstance(g.target, ast.Tuple) and \
+                len(g.target.elts) == 2 and all(isinstance(e, ast.Name) for e in g.target.elts):
+            form = "pairs"
+            lo_t, hi_t = g.target.elts[0].id, g.target.elts[1].id
+        elif it_def is not None and isinstance(g.target, ast.Name):
+            m1 = match("[slice(%s[_I_], %s[_I_ + 1]) for _I_ in range(%s)]" % (ST, ST, NJ), it_def)
+            m2 = match("[_EX_[%s[_I_]:%s[_I_ + 1]] for _I_ in range(%s)]" % (ST, ST, NJ), it_def)
+            if m1 is None:
+                m1 = match("[slice(_LO_, _HI_) for _LO_, _HI_ in zip(%s[:-1], %s[1:])]" % (ST, ST), it_def)
+            if m2 is None:
+                m2 = match("[_EX_[_LO_:_HI_] for _LO_, _HI_ in zip(%s[:-1], %s[1:])]" % (ST, ST), it_def)
+            if m1 is not None:
+                form = "slices"
+                lo_t, hi_t = "%s.start" % g.target.id, "%s.stop" % g.target.id
+                subst = {"slice": g.target.id}
+            elif m2 is not None:
+                form = "chunks"
+                lo_t = hi_t = None
+                subst = {"chunk": g.target.id, "of": m2["_EX_"]}
+        ctx.check(form is not None, rule, "%s: the tasks run over the consecutive chunks of the partition" % qual, par,
+                  fn, "iterable is %s" % its, construct="task iterable of " + qual)
+        if form is None:
+            continue
         pkw = {k.arg: ast.unparse(k.value) for k in par.func.keywords}
         ctx.check(pkw.get("n_jobs") == NJ, rule, "%s: Parallel runs with the n_jobs of the partition" % qual, par, fn,
                   "n_jobs=%s" % pkw.get("n_jobs"), construct="Parallel n_jobs of " + qual)
-        # slices
-        sl = [a for a in task.args if isinstance(a, ast.Subscript) and isinstance(a.slice, ast.Slice)]
-        want = ("%s[%s]" % (ST, ivar), "%s[%s + 1]" % (ST, ivar))
-        okb = bool(sl) and all(ast.unparse(a.slice.lower) == want[0] and ast.unparse(a.slice.upper) == want[1]
-                               and a.slice.step is None for a in sl)
-        ctx.check(okb, rule, "%s: every per-row argument is sliced starts[i]:starts[i+1]" % qual, task, fn,
-                  "slices: %s" % [ast.unparse(a) for a in sl], construct="task slices of " + qual)
-        sliced = [ast.unparse(a.value) for a in sl]
+
+        def chunk_of(a):
+            """name of the array of which argument `a` is the task's chunk, or None"""
+            if form in ("range", "pairs") and isinstance(a, ast.Subscript) and isinstance(a.slice, ast.Slice) and \
+                    a.slice.step is None and a.slice.lower is not None and a.slice.upper is not None and \
+                    ast.unparse(a.slice.lower) == lo_t and ast.unparse(a.slice.upper) == hi_t:
+                return ast.unparse(a.value)
+            if form == "slices" and isinstance(a, ast.Subscript) and ast.unparse(a.slice) == subst["slice"]:
+                return ast.unparse(a.value)
+            if form == "chunks" and isinstance(a, ast.Name) and a.id == subst["chunk"]:
+                return subst["of"]
+            return None
+        sl = [a for a in task.args if chunk_of(a) is not None]
+        anysl = [a for a in task.args if chunk_of(a) is not None or
+                 isinstance(a, ast.Subscript) and isinstance(a.slice, ast.Slice)]
+        okb = bool(sl) and len(sl) == len(anysl)
+        ctx.check(okb, rule, "%s: every per-row argument is the task's own chunk [lo:hi]" % qual, task, fn,
+                  "slices: %s" % [ast.unparse(a) for a in anysl], construct="task slices of " + qual)
+        sliced = [chunk_of(a) for a in sl]
         # the partitioned length is the length of the sliced array
         arg = pb["_EA_"]
-        lens = {"len(%s)" % s for s in sliced}
+        lens = {"len(%s)" % x for x in sliced}
         src_ok = arg in lens
         if not src_ok:
             for node in ast.walk(fn.node):
@@ -471,7 +541,7 @@ def check_partition_sites(ctx, rule="R5.2", only=None):
                 continue
             s_ = ast.unparse(a)
             if (isinstance(a, ast.Subscript) and ast.unparse(a.value) == ST) or pos == off_pos:
-                ctx.check(s_ == "%s[%s]" % (ST, ivar), rule, "%s: the offset argument is the slice's lower bound" %
+                ctx.check(lo_t is not None and s_ == lo_t, rule, "%s: the offset argument is the chunk's lower bound" %
                           qual, a, fn, "offset %s" % s_, construct="offset argument of " + qual)
         # per-row seeds: a sliced name that was drawn from the bandit generator
         seeds_stmt = None
@@ -493,11 +563,20 @@ def check_partition_sites(ctx, rule="R5.2", only=None):
             total_ok = False
             if size is not None:
                 rows = [x for x in sliced if x != seeds_name]
-                if size in ["len(%s)" % r for r in rows]:
+                # the total row count: the length of the rows, the sum of the chunk sizes, or the last boundary
+                totals = ["sum(%s)" % pb["_NC_"], "%s[-1]" % ST] + ["len(%s)" % r for r in rows]
+                # (a name that held the row count before it was rebound by the partition call)
+                for node in ast.walk(fn.node):
+                    if isinstance(node, ast.Assign) and len(node.targets) == 1 and \
+                            isinstance(node.targets[0], ast.Name) and node.lineno < part.lineno and \
+                            ast.unparse(node.value) in ["len(%s)" % r for r in rows] and \
+                            node.targets[0].id not in (pb["_NJ_"], pb["_NC_"], ST):
+                        totals.append(node.targets[0].id)
+                if size in totals:
                     total_ok = True
                 for node in ast.walk(fn.node):
                     if isinstance(node, ast.Assign) and ast.unparse(node.targets[0]) == size and \
-                            ast.unparse(node.value) in ["sum(%s)" % pb["_NC_"]] + ["len(%s)" % r for r in rows]:
+                            ast.unparse(node.value) in totals:
                         total_ok = True
             ctx.check(bool(oks and total_ok), rule, "%s: one seed per row is drawn from the bandit generator "
                       "before the tasks start, with a size that is the total row count" % qual,
@@ -560,8 +639,36 @@ def check_partition_arithmetic(ctx, rule):
     if sz is None:
         sz, sb = find("_S_ = np.full(_EJ_, _EQ_)", fn.node)
     ok = sz is not None
-    detail = "chunk sizes are not built as np.full(n_jobs, quotient)"
-    if ok:
+    detail = "chunk sizes are not built as np.full(n_jobs, quotient) (+1 for the first n % n_jobs) nor as " \
+             "[q + 1 if i < r else q for i in range(n_jobs)]"
+    if not ok:
+        # plain-python form: sizes by comprehension, starts by a running sum
+        lz, lb = find("_S_ = [_EQ_ + 1 if _I_ < _ER_ else _EQ_ for _I_ in range(_EJ_)]", fn.node)
+        if lz is None:
+            lz, lb = find("_S_ = [_EQ_ + (_I_ < _ER_) for _I_ in range(_EJ_)]", fn.node)
+        if lz is not None:
+            S = lb["_S_"]
+            keep.add(S)
+            J = T(ast.parse(lb["_EJ_"], mode="eval").body)
+            ok_q = T(ast.parse(lb["_EQ_"], mode="eval").body) == "%s // %s" % (n, J)
+            ok_r = T(ast.parse(lb["_ER_"], mode="eval").body) == "%s %% %s" % (n, J)
+            # starts = [0]; for x in sizes: starts.append(starts[-1] + x)
+            st0, stb = find("_ST_ = [0]", fn.node)
+            ok_st = False
+            if st0 is not None:
+                keep.add(stb["_ST_"])
+                lpn, _ = find("for _X_ in %s:\n    %s.append(%s[-1] + _X_)" % (S, stb["_ST_"], stb["_ST_"]), fn.node)
+                ok_st = lpn is not None and len([x for x in ast.walk(fn.node) if isinstance(x, ast.Call) and
+                                                 ast.unparse(x.func) == "%s.append" % stb["_ST_"]]) == 1
+            rets = [r for r in fn.node.body if isinstance(r, ast.Return)]
+            ok_ret = bool(rets) and isinstance(rets[-1].value, ast.Tuple) and len(rets[-1].value.elts) == 3 and \
+                T(rets[-1].value.elts[0]) == J and ast.unparse(rets[-1].value.elts[1]) in (S, "list(%s)" % S) and \
+                st0 is not None and ast.unparse(rets[-1].value.elts[2]) == stb["_ST_"]
+            ok = ok_q and ok_r and ok_st and ok_ret
+            detail = "quotient: %s; remainder prefix: %s; running-sum starts: %s; returns (n_jobs, sizes, starts): %s" \
+                     % (ok_q, ok_r, ok_st, ok_ret)
+            sz = None
+    if ok and sz is not None:
         S = sb["_S_"]
         keep.add(S)
         J = T(ast.parse(sb["_EJ_"], mode="eval").body)
@@ -591,8 +698,13 @@ def check_partition_arithmetic(ctx, rule):
     size, nj = ej.params[0], ej.params[1]
     body = [x for x in ej.node.body if not (isinstance(x, ast.Expr) and isinstance(x.value, ast.Constant))]
     txt = [" ".join(ast.unparse(x).split()) for x in body]
-    ok_e = any(t == "%s = min(%s, %s)" % (nj, nj, size) or t == "%s = min(%s, %s)" % (nj, size, nj) for t in txt) and \
-        txt[-1] == "return %s" % nj
+    rets = [x for x in ast.walk(ej.node) if isinstance(x, ast.Return)]
+    # every returned value is capped by the number of rows: `return min(<jobs>, size)`, or `n_jobs = min(n_jobs, size)`
+    # as the last assignment before `return n_jobs`
+    capped = bool(rets) and all(match("min(_EA_, %s)" % size, r.value) is not None or
+                                match("min(%s, _EA_)" % size, r.value) is not None for r in rets if r.value is not None)
+    ok_e = capped or (any(t == "%s = min(%s, %s)" % (nj, nj, size) or t == "%s = min(%s, %s)" % (nj, size, nj)
+                          for t in txt) and txt[-1] == "return %s" % nj)
     ctx.check(ok_e, rule, "_effective_jobs never exceeds the number of rows (no empty chunk is asked to predict)",
               ej.node, ej, "body: %s" % txt, construct="def BaseMAB._effective_jobs")
 
